@@ -310,13 +310,69 @@ func c11Run(c *fw.Ctx, content string, depthCap int) {
 	}
 }
 
+// ---- lines and line counts beyond 2^16: read to the end, step back over the break, read again
+
+func c11LongLine(c *fw.Ctx, n int, br string, manyLines bool) {
+	var content string
+	if manyLines {
+		content = strings.Repeat(br, n) + "yz"
+	} else {
+		content = strings.Repeat("x", n) + br + "yz"
+	}
+	runes := []rune(content)
+	s := rio.NewStringScanner(content)
+	p := -1
+	check := func(what string) bool {
+		el, ecol := forwardLC(runes, p)
+		if s.Line() != el || s.Column() != ecol {
+			c.Violation("linecol-on-long-content", "content of %d characters (%d x %q, then %q) %s: cursor %d reports (%d,%d), a forward scan reports (%d,%d)", len(runes), n, map[bool]string{true: br, false: "x"}[manyLines], map[bool]string{true: "yz", false: br + "yz"}[manyLines], what, p, s.Line(), s.Column(), el, ecol)
+			return false
+		}
+		if p+1 < len(runes) {
+			nl, nc := forwardLC(runes, p+1)
+			if s.PeekLine() != nl || s.PeekColumn() != nc {
+				c.Violation("peek-linecol-on-long-content", "content of %d characters %s: cursor %d peeks (%d,%d), the next read reports (%d,%d)", len(runes), what, p, s.PeekLine(), s.PeekColumn(), nl, nc)
+				return false
+			}
+		}
+		return true
+	}
+	for i := 0; i < len(runes); i++ {
+		s.Read()
+		p++
+	}
+	if !check("after reading everything") {
+		return
+	}
+	back := len([]rune(br)) + 3
+	for i := 0; i < back; i++ {
+		s.Unread()
+		p--
+		if !check(fmt.Sprintf("after reading everything and %d x Unread()", i+1)) {
+			return
+		}
+	}
+	for i := 0; i < back; i++ {
+		s.Read()
+		p++
+		if !check("after reading on again") {
+			return
+		}
+	}
+	s.UnreadMany(back + 2)
+	p -= back + 2
+	check("after UnreadMany over the break")
+	c.Eval(1)
+	c.Nontrivial()
+}
+
 func init() {
 	fw.Register(&fw.Check{
 		ID:    "C11",
 		Level: "model_checking",
 		Rule: "explicit-state BFS of the real StringScanner: one graph per content over {x,LF,CR}; operations {Read,Unread,UnreadMany(2),UnreadMany(3),UnreadMany(7),UnreadMany(len+3),Reset} and the observers {Peek+PeekLine+PeekColumn, Line+Column} and the multi-unreads by a non-positive count {0,-1,MinInt} as operations of their own (self-loops on a scanner without hidden state); " +
 			"state key = hash of ALL private fields of the object taken before any observer runs; successors built by replaying the shortest history on a fresh scanner, in four modes that call the observers (peeks / line+column / both / none) after every replayed operation; " +
-			"plus patterns of <=3 characters repeated to lengths up to 66; every state is compared with the cursor model, the independent line/column rule and a fresh forward scan; non-trivial = content with a line break and length>=2",
+			"plus patterns of <=3 characters repeated to lengths up to 66; plus lines of 65535..65537 characters and 65535..65537 line breaks of each kind, read to the end, stepped back over the break and read again; every state is compared with the cursor model, the independent line/column rule and a fresh forward scan; non-trivial = content with a line break and length>=2",
 		Assume: []string{"peek law asserted only where a next character exists (end-of-input slot pinned by C12)"},
 		Spaces: func(tier string) []fw.Space {
 			maxLen, depth := 4, 8
@@ -331,6 +387,16 @@ func init() {
 					c11Run(c, c11Content(i, maxLen), depth)
 				},
 				Repr: func(i int64) string { return fmt.Sprintf("content=%q", c11Content(i, maxLen)) },
+			}, {
+				Name: "long-lines",
+				N:    int64(len(hugeCounts) * 4 * 2),
+				Run: func(c *fw.Ctx, i int64) {
+					c11LongLine(c, hugeCounts[int(i)/8], []string{"\n", "\r", "\r\n", "\n\r"}[int(i)%8/2], i%2 == 1)
+				},
+				Repr: func(i int64) string {
+					return fmt.Sprintf("%d x (x | %q), then the rest; many lines: %v", hugeCounts[int(i)/8], []string{"\n", "\r", "\r\n", "\n\r"}[int(i)%8/2], i%2 == 1)
+				},
+				Timeout: 300e9,
 			}, {
 				Name: "pumped-contents",
 				N:    (countStrings(3, 3) - 1) * 5,
